@@ -515,9 +515,11 @@ func main() {
 		"model comparison: full error sets (position, class) of Process; when Go reports a link failure (no-such-module / no-such-submodule) only errors-vs-no-errors, "+
 			"because what else is reported after a failed link depends on partially linked state outside the identity/type models")
 	res.Rule = "histories = sequences of source texts loaded (errors ignored) into one Modules, Process, ToEntry of every module and submodule, full walk " +
-		"(Dir, RPC input/output) calling GetErrors, Path, ReadOnly, Namespace, InstantiatingModule, DefaultValues, Find (own path, bogus, relative), Print; " +
+		"(Dir, RPC input/output) calling GetErrors, Path, ReadOnly, Namespace, InstantiatingModule, DefaultValues, Find (own path, bogus, relative), Print, and on every " +
+		"resolved type (recursively over union members) Range/Length String and Validate, enum and bit tables; " +
 		"also yang.Parse alone on every text. Streams in order: corpus/C01 (crash witnesses of DESIGN section 8), every .yang file and every YANG literal of " +
-		"pkg/yang/*_test.go alone / as written groups / in pairs, grammar-aware mutation of generated sets and of those texts, byte-level mutation, nesting " +
+		"pkg/yang/*_test.go alone / as written groups / in pairs, grammar-aware mutation of generated sets and of those texts (incl. numeric boundary arguments " +
+		"combined with range/length restrictions and typedef chains, and texts that Modules.Parse rejects late after typedef-bearing statements), byte-level mutation, nesting " +
 		"depth up to 10^4 and 7-24 lexical errors per file. evaluations = histories run; distinct_nontrivial = distinct histories (by hash of names, texts, " +
 		"options) in which at least one text passes the generic parser, i.e. reaches the AST builder"
 	res.Write(f.Out)
@@ -555,6 +557,12 @@ func anyRejected(acc []bool) bool {
 }
 
 func expectText(h *History) string {
+	if h.ExpectClean {
+		if h.ExpectRejected {
+			return "a text rejected by Modules.Parse and no errors from Process of what was accepted"
+		}
+		return "no errors from Process"
+	}
 	switch {
 	case h.ExpectErrors && h.ExpectRejected:
 		return "errors from Process and a text rejected by Modules.Parse"
@@ -695,12 +703,12 @@ func (a *agg) evaluate(f *lib.Flags, d *driver, j job, h *History, v *Verdict, o
 		a.res.Distribution["disagreements_total"] = n + 1
 		return
 	}
-	if h.ExpectErrors && v.Rep.NErrs == 0 || h.ExpectRejected && !anyRejected(v.Rep.Accepted) {
+	if h.ExpectErrors && v.Rep.NErrs == 0 || h.ExpectRejected && !anyRejected(v.Rep.Accepted) || h.ExpectClean && v.Rep.NErrs != 0 {
 		n, _ := a.res.Distribution["disagreements_total"].(int)
 		a.res.Distribution["disagreements_total"] = n + 1
 		a.res.Disagreements = append(a.res.Disagreements, lib.Disagreement{Kind: "spec", Input: inputSummary(h),
 			Go: map[string]any{"accepted": v.Rep.Accepted, "process_errors": v.Rep.Errs}, SpecVerdict: "violates",
-			What:   "a malformed history of the corpus is no longer reported through errors (expected: " + expectText(h) + ")",
+			What:   "a corpus history is no longer answered as expected (expected: " + expectText(h) + ")",
 			Replay: h})
 	}
 	if allParse {
@@ -798,8 +806,8 @@ func replay(f *lib.Flags, emptyDir string) int {
 	for _, e := range v.Rep.RawErrs {
 		fmt.Println("  go message:", e)
 	}
-	if h.ExpectErrors && v.Rep.NErrs == 0 || h.ExpectRejected && !anyRejected(v.Rep.Accepted) {
-		fmt.Println("NOT REPORTED: expected", expectText(&h))
+	if h.ExpectErrors && v.Rep.NErrs == 0 || h.ExpectRejected && !anyRejected(v.Rep.Accepted) || h.ExpectClean && v.Rep.NErrs != 0 {
+		fmt.Println("NOT AS EXPECTED: expected", expectText(&h))
 		return 1
 	}
 	if v.Rep.Wire == "" || f.Driver == "" {
